@@ -75,7 +75,7 @@ def c12_evidence_extra(agg: dict) -> dict:
                       "never_successful": never_ok},
         "uncatalogued_api": uncatalogued_api(),
         "directed_write_site_sweep": {k: v for k, v in (agg.get("sweep") or {}).items() if k != "stats"} | {
-            "sites_swept": len(agg.get("site_hits", {})), "variants": runner.VARIANTS,
+            "sites_swept": len(agg.get("site_hits", {})), "variants": runner.VARIANTS + runner.DUET2,
             "variant_runs": (agg.get("sweep") or {}).get("stats", {}).get("directed", {})},
         "real_vs_stub": {"real": ["geometer (all modules)", "numpy", "CPython threads"],
                          "simulated": ["client scheduling", "logical clock", "fault delivery", "cache eviction"],
@@ -109,6 +109,9 @@ def c12_sweep(agg, tier):
             seed = ops[op_][1]
             for variant in (("duet_pre", "duet_post") if j < ops_per_site // 2 or tier != "quick" else ("duet_post",)):
                 tasks.append((seed, list(site), variant, op_))
+            if tier != "quick" and j < 8:
+                for variant in runner.DUET2:
+                    tasks.append((seed, list(site), variant, op_))
     return tasks
 
 
